@@ -343,7 +343,6 @@ bool Instance::configure_tx_txin() {
     auto& wstack = tx->vin[txin_index].scriptWitness.stack;
     auto& scriptSig = tx->vin[txin_index].scriptSig;
     CScript scriptPubKey = txin->vout[txin_vout_index].scriptPubKey;
-    std::vector<const char*> push_del;
     btc_segwit_logf("got witness stack of size %zu\n", wstack.size());
     if (wstack.size() > 0) {
         // segwit
@@ -599,21 +598,16 @@ bool Instance::configure_tx_txin() {
                 }
             }
         }
-        // put remainder on to-be-parsed stack
+        // the remaining witness items are the initial stack, byte for byte (as hex text they would be re-interpreted:
+        // "51" or "1234" read as decimal numbers)
         for (size_t i = 0; i < wstack_to_stack; i++) {
-            push_del.push_back(strdup(HexStr(wstack[i]).c_str())); // TODO: use as is rather than hexing and dehexing
+            stack.push_back(wstack[i]);
         }
     } else {
         // legacy
         sigver = SigVersion::BASE;
         script = scriptSig;
         successor_script = scriptPubKey;
-    }
-
-    parse_stack_args(push_del);
-    while (!push_del.empty()) {
-        free((void*)push_del.back());
-        push_del.pop_back();
     }
 
     // // extract pubkeys from script
